@@ -28,6 +28,7 @@ func init() {
 			ruleFreshMaps(r)
 			ruleStepSamplesAccumulate(r, []string{"vectorAggIterator", "vectorAggHeapIterator", "rangeAggIterator"})
 			rulePerStepGroupTables(r, []string{"vectorAggIterator", "vectorAggHeapIterator"})
+			ruleNoSumOfSquares(r)
 		},
 	})
 }
